@@ -115,6 +115,7 @@ class ScriptedBase : public Oomd::Engine::BasePlugin {
     if (it != args.end()) {
       cgroup_arg_ = it->second;
     }
+    if (int us = scripts.init_sleep_us.load()) std::this_thread::sleep_for(std::chrono::microseconds(us));
     it = args.find("fail_init");
     int rc = 0;
     if (it != args.end()) {
